@@ -889,6 +889,7 @@ class unreach (packet_base, unpack_new_adapter):
   MIN_LEN = 4
 
   def __init__ (self, raw=None, prev=None, **kw):
+    packet_base.__init__(self)
 
     self.prev = prev
 
